@@ -182,6 +182,147 @@ fn fee_lattice(run: &Run, tier: Tier) -> Local {
     a.merge(b).merge(c)
 }
 
+/// Change-boundary slice. The value of one input is *derived* so that the total change lands on
+/// the comparisons of the split / dust logic: for a MultiOutputChangeStrategy that wants n in {2,3,4}
+/// change outputs, a dust threshold T, a minimum split value v in {1, T/4, T, 2T}, every candidate
+/// number of change outputs m <= n, every change pool p and every gap g between two fee estimates
+/// of the same request (fee with a outputs minus fee with b outputs, 0 <= b < a <= n, and 0, both
+/// signs), the input is chosen such that
+///     total_in - outputs - ZIP317(shape with m change outputs in p) = m*B + g + d,
+/// B in {T, v}, d in {-1, 0, +1}. The fees are the reference model's; the derived values only decide
+/// which cases exist, the verdict is the ordinary oracle's.
+fn boundary_slice(run: &Run, tier: Tier, net: &zcash_protocol::local_consensus::LocalNetwork) -> Local {
+    let item = |pool: u8, value: u64| Item { pool, kind: 0, value };
+    let var_pools = [S, O, I, T];
+    let other_values: &[u64] = match tier {
+        Tier::Quick => &[15_000],
+        Tier::Thorough => &[5_001, 15_000, 1_000_000],
+    };
+    let mut others: Vec<Option<Item>> = vec![None];
+    for pool in [S, O, I, T] {
+        for &v in other_values {
+            others.push(Some(item(pool, v)));
+        }
+    }
+    let mut out_shapes: Vec<Vec<Item>> = vec![vec![]];
+    for pool in [T, S, O, I] {
+        out_shapes.push(vec![item(pool, 10_000)]);
+    }
+    if tier == Tier::Thorough {
+        out_shapes.push(vec![item(S, 10_000), item(I, 10_000)]);
+        out_shapes.push(vec![item(T, 10_000), item(O, 0)]);
+        out_shapes.push(vec![item(S, 60_000), item(S, 0)]);
+    }
+    let mut cfgs: Vec<Cfg> = vec![];
+    for n in [2u8, 3, 4] {
+        for action in 0..3u8 {
+            for thr in [None, Some(5_000u64), Some(1_000_000)] {
+                let t = thr.unwrap_or(MARGINAL as u64);
+                for min in [1, t / 4, t, 2 * t] {
+                    for memo in [false, true] {
+                        if memo && tier == Tier::Quick {
+                            continue;
+                        }
+                        for height in [NU5 - 1, NU6_3 - 1, NU6_3] {
+                            let mut c = space::baseline();
+                            c.multi = true;
+                            c.split_target = n;
+                            c.split_min = Some(min);
+                            c.meta = Some(0);
+                            c.dust_action = action;
+                            c.dust_threshold = thr;
+                            c.memo = memo;
+                            c.height = height;
+                            cfgs.push(c);
+                        }
+                    }
+                }
+            }
+        }
+    }
+    let mut shapes: Vec<(u8, Option<Item>, Vec<Item>)> = vec![];
+    for vp in var_pools {
+        for o in &others {
+            for outs in &out_shapes {
+                shapes.push((vp, *o, outs.clone()));
+            }
+        }
+    }
+    let cfgs = &cfgs;
+    shapes
+        .par_iter()
+        .fold(Local::default, |mut loc, (vp, other, outs)| {
+            let mut ins = vec![item(*vp, 1_000_000)];
+            ins.extend(other.iter().copied());
+            let other_sum: i128 = other.map_or(0, |o| o.value as i128);
+            let min_h = space::flow_min_height(&ins, outs);
+            let ov = harness::out_views(outs);
+            let mut case = Case { ins: ins.clone(), outs: outs.clone(), cfg: space::baseline() };
+            for cfg in cfgs.iter() {
+                if cfg.height < min_h {
+                    continue;
+                }
+                case.cfg = *cfg;
+                case.ins[0].value = 1_000_000;
+                let f = Facts::new(&case);
+                let n = cfg.split_target as i128;
+                let bases = [f.threshold, cfg.split_min.unwrap_or(0) as i128];
+                let mut xs: Vec<u64> = vec![];
+                for p in [S, O, I] {
+                    let man = |c: i128| match p {
+                        S => Manifest { s: c, ..Default::default() },
+                        O => Manifest { o: c, ..Default::default() },
+                        _ => Manifest { i: c, ..Default::default() },
+                    };
+                    let fees: Vec<i128> = (0..=n).map(|c| f.fee(man(c))).collect();
+                    let mut gaps: Vec<i128> = vec![0];
+                    for a in 0..=n as usize {
+                        for b in 0..a {
+                            gaps.push(fees[a] - fees[b]);
+                            gaps.push(fees[b] - fees[a]);
+                        }
+                    }
+                    gaps.sort();
+                    gaps.dedup();
+                    for m in 1..=n {
+                        for base in bases {
+                            for &g in &gaps {
+                                for d in -1..=1 {
+                                    let change = m * base + g + d;
+                                    if change < 0 {
+                                        continue;
+                                    }
+                                    let x = f.sum_out_all + fees[m as usize] + change - other_sum;
+                                    if x >= 1 && x <= MAX_MONEY {
+                                        xs.push(x as u64);
+                                    }
+                                }
+                            }
+                        }
+                    }
+                }
+                xs.sort();
+                xs.dedup();
+                for x in xs {
+                    case.ins[0].value = x;
+                    let iv = harness::in_views(&case.ins);
+                    match check_with(net, &case, &iv, &ov) {
+                        Ok(l) => loc.record(l, || case.key()),
+                        Err(m) => {
+                            let new_class = !loc.fail_classes.contains_key(&class_of(&m));
+                            loc.violation(&m, || case.key());
+                            if new_class || run.failure_count() < 8 {
+                                run.fail("balance", case.key(), m, serde_json::to_value(&case).unwrap());
+                            }
+                        }
+                    }
+                }
+            }
+            loc
+        })
+        .reduce(Local::default, Local::merge)
+}
+
 pub fn run(args: &Args) -> i32 {
     let run = Run::new(args, "exploration");
     let tier = args.tier;
@@ -190,6 +331,9 @@ pub fn run(args: &Args) -> i32 {
          boundary alphabets, enumerated as non-decreasing index vectors so every multiset occurs once; three slices: value-rich (all core-alphabet flows x CV), \
          out-of-range (every flow containing a MAX_MONEY-scale value x CO), configuration-rich (lean-alphabet flows x CC minus CV); flows whose payments exceed the \
          inputs by more than 1.1e6 zatoshi get only the default-dust-policy part of CV; a configuration is used for a flow only if every pool the flow touches and the fallback pool exist at the target height; anchors off the grid only for flows with an Ironwood output. \
+         change-boundary slice: (variable input pool, optional fixed second input, requested outputs) x multi-output strategies with target 2/3/4, dust policy, \
+         min split value {1, T/4, T, 2T}, where the variable input's value is derived so that the total change is m*T or m*minsplit, +-1, plus/minus every gap between two \
+         fee estimates of the request, for every m <= target and every change pool (split_min never equals the 100000 used elsewhere, so no case repeats). \
          fee cases: (rule, transparent input sizes, output sizes, sapling spends/outputs, orchard actions, ironwood actions) over a size/count lattice. \
          Every case is distinct by construction and executes the real code once",
     );
@@ -231,6 +375,7 @@ pub fn run(args: &Args) -> i32 {
         "common.rs total_change < dust threshold (None->5000, 0, 5000, 10^6) and total_change == 0",
         "common.rs fee_with_dust > total_fee + 10*MINIMUM_FEE: threshold 10^6 with change on both sides of 100000",
         "common.rs split_count < target_change_count (fee recomputation): targets 1,2,4 x note counts none,0,1,5 x change on both sides of 10^5 per output",
+        "common.rs / fees.rs per-output change >= min_split_output_value and >= dust threshold, computed from the max-fee estimate while the final fee may be lower: change-boundary slice puts the total change on m*T and m*minsplit, +-1, +- every fee-estimate gap, for targets 2,3,4",
         "common.rs select_change_pool: every subset of pools with flows, fallback x3, NU6.3 on/off, max change <,==,> Orchard input total",
         "common.rs ironwood_is_canonical_crossing: 0/1/2 Orchard inputs, Ironwood inputs, 0/1/2 Ironwood outputs of canonical (10^6,10^8) and non-canonical values, anchor 0/1/143 mod 144, change in each pool, ephemeral output",
         "common.rs fully_transparent && no memo; TransparentChangeAllowed; zero transparent change omitted",
@@ -295,6 +440,9 @@ pub fn run(args: &Args) -> i32 {
     if total.skipped_inputs > 0 {
         run.cap_hit(&format!("wall cap {}s: {} of {} input multisets (with all their outputs and configurations) not evaluated", WALL_CAP_S, total.skipped_inputs, in_sets.len()));
     }
+    let boundary = boundary_slice(&run, tier, &net);
+    run.section("change_boundary_cases", json!(boundary.n));
+    let total = total.merge(boundary);
     let fees = fee_lattice(&run, tier);
     run.section("balance_cases", json!(total.n));
     run.section("fee_cases", json!(fees.n));
